@@ -131,6 +131,26 @@ type SInlineMulti struct {
 	L []STwo `tlv8:"-"`
 }
 
+// inline elements whose FIRST field is of a kind that is not written when it is empty
+type STrack struct {
+	Label string `tlv8:"1"`
+	Id    uint8  `tlv8:"2"`
+	Gain  uint16 `tlv8:"3"`
+}
+type SInlineOmitFirst struct {
+	Title string   `tlv8:"7"`
+	L     []STrack `tlv8:"-"`
+}
+type SKeyed struct {
+	Salt []byte `tlv8:"1"`
+	Kind uint8  `tlv8:"2"`
+	Note string `tlv8:"3"`
+}
+type SInlineBytesFirst struct {
+	L   []SKeyed `tlv8:"-"`
+	Rev uint32   `tlv8:"9"`
+}
+
 // several inline lists side by side, as rtp.VideoCodecParameters does
 type SInlineTriple struct {
 	A []SOne  `tlv8:"-"`
@@ -207,7 +227,7 @@ var synTypes = []typeEntry{
 	te(STagEdge{}, false), te(SInts{}, false), te(SLeaf{}, false), te(SMid{}, false), te(SNested{}, false),
 	te(STagged{}, false), te(STaggedOnly{}, false), te(SInline{}, false), te(SInlineOnly{}, false),
 	te(SInlineStr{}, false), te(SInlineMulti{}, false), te(SInlineTriple{}, false), te(STwoLists{}, false),
-	te(SAll{}, false),
+	te(SAll{}, false), te(SInlineOmitFirst{}, false), te(SInlineBytesFirst{}, false),
 }
 
 // int8 is not among the kinds hc's encoder switches on; it joins the other types only when a probe
